@@ -35,3 +35,5 @@ else:
         if b.startswith('Check ') and 'Status: UNREACHABLE' in b and 'C1' not in b and 'C0' not in b:
             continue
         print(b)
+    import re as _r
+    print('\n'.join(_r.findall(r'(?:Checking harness.*|VERIFICATION:- .*|Verification Time.*|SUMMARY.*\n.*|Complete - .*)', body)))
